@@ -317,6 +317,10 @@ def clause_lines(kind, clauses, probe_labels):
         txt = c.text
         if c.guard is not None and c.label not in probe_labels:
             txt = "(" + c.guard + ") ==> (" + txt + ")"
+        if kind == "ensures" and "negate:this" in probe_labels:
+            # must-fail twin (thorough tier): the negated clause has to be rejected, otherwise the
+            # function's contract is vacuous (unsatisfiable precondition / no normal exit)
+            txt = "!(" + txt + ")"
         tl = txt.split("\n")
         for n, l in enumerate(tl):
             suffix = "," if n == len(tl) - 1 else ""
@@ -338,6 +342,7 @@ def render_fn_contract(fn, probe_labels, with_guard_requires=True):
 
 
 def render_loop_contract(loop, probe_labels):
+    probe_labels = frozenset(probe_labels) - {"negate:this"}   # only function-level ensures are negated in a twin
     lines = []
     lines += [(t, ("invariant", l) if l else None) for t, l in
               clause_lines("invariant_except_break", loop.invariant_except_break, probe_labels)]
@@ -561,11 +566,29 @@ def generate(unit, probe_labels=frozenset()):
             elif isinstance(it, Impl):
                 out, info, infos = gen_impl(it, g, probe_labels, unit.name)
             else:
-                out, info = gen_fn(it, g, probe_labels, unit.name)
+                out, info = gen_fn(it, g, probe_labels - {"negate:ensures"}, unit.name)
                 infos = [info]
                 hdr = it.impl_header or it.impl
                 if hdr:
                     out = [("impl " + hdr + " {", None)] + out + [("}", None)]
+                if "negate:ensures" in probe_labels and it.mode == "verify" and [c for c in it.ensures if not getattr(c, "stub_only", False)]:
+                    # must-fail twin: a renamed copy of the function whose ensures clauses are negated
+                    # (callers keep seeing the real contract of the original)
+                    g2 = Generated()
+                    tw_out, tw_info = gen_fn(it, g2, (probe_labels - {"negate:ensures"}) | {"negate:this"}, unit.name)
+                    renamed = []
+                    done = False
+                    for (t, reg) in tw_out:
+                        if not done and reg is not None and reg.get("kind") == "sig" and re.search(r"\bfn\s+" + re.escape(it.name) + r"\b", t):
+                            t = re.sub(r"\bfn\s+" + re.escape(it.name) + r"\b", "fn " + it.name + "__twin", t, count=1)
+                            done = True
+                        r2 = dict(reg) if reg is not None else None
+                        if r2 is not None:
+                            r2["fnkey"] = it.key + "__twin"
+                        renamed.append((t, r2))
+                    if hdr:
+                        renamed = [("impl " + hdr + " {", None)] + renamed + [("}", None)]
+                    out = out + [("", None)] + renamed
             start = len(g.lines) + 1
             for (t, reg) in out:
                 g.lines.append(t)
